@@ -86,7 +86,69 @@ def main():
             res.fail("corr:NormalizeRotationTranspiler", "output is not the same gate with its angle shifted by a multiple of 2 pi "
                      "into the cycle range", {"gate": name, "theta": th, "lower": lower,
                                                "out": [(g.name, list(g.target_indices), list(g.params)) for g in out]})
+    pauli_decomposers(res, rng, a)
     res.emit()
+
+
+PD_IMPORTS = ("From Coq Require Import ZArith List.\nFrom QP Require Import Gates.\n"
+              "From QPM Require Import Pauli Native PauliRot.\nOpen Scope Z_scope.")
+PD_DEFS = """
+Definition kc (k : gkind) : Z := match k with KH => 1 | KRX => 2 | KCNOT => 3 | KRZ => 4 | KX => 5 | KY => 6 | KZ => 7 | _ => 0 end.
+Definition encg (g : pg Z) : list Z :=
+  kc (pgk g) :: Z.of_nat (length (pgq g)) :: map Z.of_nat (pgq g) ++ Z.of_nat (length (pgp g)) :: pgp g.
+Definition pl (i : nat) (p : Z) : nat * pauli := (i, match p with 1 => PX | 2 => PY | _ => PZ end).
+Definition run_prot (l : list (nat * pauli)) : list Z := flat_map encg (prot_decompose_g 1 (-1) l 7).
+Definition run_pauli (l : list (nat * pauli)) : list Z := flat_map encg (pauli_decompose_g (P := Z) l).
+"""
+
+
+def pauli_decomposers(res, rng, a):
+    """PauliRotationDecomposeTranspiler / PauliDecomposeTranspiler vs coq/model/PauliRot.v (prot_decompose_g,
+    pauli_decompose_g) run by vm_compute: strings of 1..7 factors on sparse qubit indices, any order"""
+    import math
+    from harness import coqeval
+    from quri_parts.circuit.transpile import PauliDecomposeTranspiler, PauliRotationDecomposeTranspiler
+    KC = {"H": 1, "RX": 2, "CNOT": 3, "RZ": 4, "X": 5, "Y": 6, "Z": 7}
+    theta = 0.7371
+    terms, reals, infos = [], [], []
+    for _ in range(60 if a.tier == "quick" else 600):
+        k = rng.randint(1, 7)
+        qs = rng.sample(range(rng.choice([k, 8, 40, 130])), k)
+        ids = [rng.randint(1, 3) for _ in qs]
+        lab = "[" + "; ".join(f"pl {q}%nat {p}" for q, p in zip(qs, ids)) + "]"
+        for kind in ("prot", "pauli"):
+            if kind == "prot":
+                out = PauliRotationDecomposeTranspiler().decompose(gates.PauliRotation(qs, ids, theta))
+            else:
+                out = PauliDecomposeTranspiler().decompose(gates.Pauli(qs, ids))
+            enc = []
+            ok = True
+            for g in out:
+                gq = list(g.control_indices) + list(g.target_indices)
+                ps = []
+                for p_ in g.params:
+                    if abs(p_ - theta) < 1e-12:
+                        ps.append(7)
+                    elif abs(p_ - math.pi / 2) < 1e-12:
+                        ps.append(1)
+                    elif abs(p_ + math.pi / 2) < 1e-12:
+                        ps.append(-1)
+                    else:
+                        ok = False
+                enc += [KC.get(g.name, 0), len(gq)] + gq + [len(ps)] + ps
+            terms.append(f"run_{kind} {lab}")
+            reals.append(enc if ok else None)
+            infos.append({"kind": kind, "qubits": qs, "pauli_ids": ids})
+            res.count((kind, tuple(qs), tuple(ids)), bucket="corr:Pauli" + ("Rotation" if kind == "prot" else "") + "DecomposeTranspiler")
+    try:
+        model = coqeval.eval_cases(a.work, "c01pd", PD_IMPORTS, PD_DEFS, terms)
+    except Exception as e:  # noqa: BLE001
+        res.broken.append({"what": "correspondence C01 (Pauli decomposers): model evaluation failed", "detail": str(e)[-1200:]})
+        return
+    for info, r, m in zip(infos, reals, model):
+        if r != m:
+            res.fail("corr:Pauli" + ("Rotation" if info["kind"] == "prot" else "") + "DecomposeTranspiler",
+                     f"decompose() {r} differs from the model {m}", info)
 
 
 if __name__ == "__main__":
